@@ -1,9 +1,12 @@
 import AioslskVerif.Model.Expect
 /-!
-Line protocol for K_C12.  The driver keeps, beside the model state, a mirror `rq` of asyncio's
-ready queue: model callbacks (`M`, run as `Op.cb`), first steps of spawned caller tasks, and the
-wake-up of the harness' own driving task (`D`).  Everything that changes the model state is one of
-the primitive `Op`s the theorems quantify over.
+Line protocol for K_C12.  The driver keeps, beside the model state, a mirror of asyncio's ready queue
+(`rq`, FIFO `call_soon`; `left` = what is still to run of the current loop iteration): model callbacks
+(`M`, run as `Op.cb`), first steps of spawned caller tasks, the wake-ups of the per-connection reader
+tasks and of suspended message handlers, and the wake-up of the harness' own driving task (`D`).
+Everything that changes the model state is one of the primitive `Op`s the theorems quantify over; what a
+message handler does (suspend, wait for a gate, close a connection, register / cancel / await a request)
+is scheduling glue that decomposes into those ops between the `arrive` and the `finish` of its call.
 
   reset
   raw  <tag> <matcher>          `create_*_response_future` now; a caller task (`async with timeout: await fut`) is spawned
@@ -11,19 +14,42 @@ the primitive `Op`s the theorems quantify over.
   exec <tag> <mode> <matcher>   task `execute(cmd, response=True)` spawned; mode 0 send ok, 1 send raises,
                                 2 send suspends once then ok, 3 suspends once then raises,
                                 4 send waits for ever (only a cancellation of the task ends it)
-  msg <conn> <cls> <n> (<field> <val>)*      `on_message_received` inside the current task step
+  msg <conn> <cls> <n> (<field> <val>)* [<L> <prog>*]
+                                the driving task itself calls `_perform_message_callback` (unless the connection is
+                                closing, as the reader loop checks); the programs must not suspend
+  feed <conn> <cls> <n> (<field> <val>)* <L> <prog>*
+                                the message is put into the connection's stream; its reader task takes it when it is
+                                free (and the connection is not closing) and awaits `_perform_message_callback`
+  open <gate>                   the driving task opens a gate
   cancelfut <tag> | canceltask <tag>      canceltask on an `execute` that is still suspended in `send`: the
                                 CancelledError is thrown into `send` when the task next runs (modes 2,3: its
                                 already scheduled continuation; mode 4: a wake-up scheduled now) = `sendFails k true`
   yield <tag>*                  the driving task yields; the rest of this loop iteration runs; the timeouts of
-                                the given waiters fire (end of the iteration); the next iteration runs up to the
-                                driving task
+                                the given waiters fire (last thing of the iteration, when they were armed before it);
+                                the next iteration runs up to the driving task
   matcher := <s|p> <msgcls> <peer|-> <n> (<field> <exp>)*     exp := cN | c<k> | pT | pF | pN | pnn | pge<k> | peq<k>
-  conn := s | pN | p<k>         val := N | <k>
+  conn := s | pN | p<k> | q<k>  (q<k>: a second connection of user k)      val := N | <k>
+  prog := <nacts> <act>*        the program of one `MessageReceivedEvent` listener for this message
+  act  := sleep <k> | gate <g> | close <conn> | raw <tag> <matcher> | wait <tag> <matcher> | exec <tag> <mode> <matcher>
+        | nwait <tag> <matcher> | nexec <tag> <matcher>        (request awaited inline by the listener)
+        | cancelfut <tag> | canceltask <tag> | raise
 Every line answers with the canonical state:
-  n=<msgs> e=<errors> order=<listed tags in list order> | <tag>:<fut>:<outcome> ...   (sorted by tag)
+  n=<msgs> e=<errors> order=<listed tags in list order> c=<closing connections> h=<r|d per call> | <tag>:<fut>:<outcome> ...
 -/
 open AioslskVerif.Expect
+
+inductive Act
+  | sleep (k : Nat)
+  | gate (g : Nat)
+  | close (c : Nat)
+  | raw (tag : Nat) (m : Matcher)
+  | wait (tag : Nat) (m : Matcher)
+  | exec (tag : Nat) (mode : Nat) (m : Matcher)
+  | nwait (tag : Nat) (m : Matcher)
+  | nexec (tag : Nat) (m : Matcher)
+  | cancelFut (tag : Nat)
+  | cancelTask (tag : Nat)
+  | raise
 
 inductive Item
   | M
@@ -33,40 +59,205 @@ inductive Item
   | awaitT (k : Nat)
   | failT (k : Nat)
   | abortT (k : Nat)           -- CancelledError delivered to a task that waits in `send` (mode 4)
+  | reader (c : Nat)           -- the reader task of connection `c` wakes up (its stream got data)
+  | hcont (i : Nat)            -- the suspended handler of call `i` resumes (`sleep(0)` / gate)
+
+/-- one call of `_perform_message_callback`: the listeners' programs still to run -/
+structure HRun where
+  conn : Nat
+  inline : Bool                -- called by the driving task itself (no reader continues afterwards)
+  cur : List Act := []
+  rest : List (List Act) := []
+  nest : Option Nat := none    -- the waiter the running listener awaits inline
+  returned : Bool := false
 
 structure DS where
   s : State := {}
   rq : List Item := []
+  left : Nat := 0              -- items at the head of rq that still belong to the current loop iteration
+  clk : Nat := 0               -- number of times the driving task has yielded (= virtual clock)
   tags : List Nat := []        -- tag of the waiter with index k
   modes : List Nat := []       -- exec mode of the waiter with index k (0 for raw / wait)
+  arm : List (Nat × Nat) := [] -- (k, clock when the caller computed its timeout)
   sendCancelled : List Nat := []   -- waiters whose task was cancelled while suspended in `send`
-  ymark : Nat := 0             -- items at the head of rq that still belong to the current iteration
+  hruns : List HRun := []      -- index = call number (`State.hs`)
+  inbox : List (Nat × Msg × List (List Act)) := []   -- (connection, message, programs), stream order
+  parked : List Nat := [0, 1, 2, 3, 4, 5]   -- connections whose reader task waits for data
+  gatesOpen : List Nat := []
+  gateWait : List (Nat × Nat) := []   -- (gate, call) in the order the handlers reached the gate
 
 def prim (d : DS) (op : Op) : DS :=
   let before := d.s.cbq.length - (match op with | .cb => 1 | _ => 0)
   let s' := step d.s op
   { d with s := s', rq := d.rq ++ List.replicate (s'.cbq.length - before) .M }
 
+def idxOf (d : DS) (tag : Nat) : Option Nat :=
+  let rec go : List Nat → Nat → Option Nat
+    | [], _ => none
+    | t :: ts, i => if t = tag then some i else go ts (i + 1)
+  go d.tags 0
+
+def armNow (d : DS) (k : Nat) : DS := { d with arm := (k, d.clk) :: d.arm }
+
+def spawnRaw (d : DS) (tag : Nat) (m : Matcher) : DS :=
+  let k := d.s.ws.length
+  let d := prim d (.create .raw m)
+  { d with tags := d.tags ++ [tag], modes := d.modes ++ [0], rq := d.rq ++ [.awaitT k] }
+
+/-- `Task.cancel()` of the caller task of waiter `k` -/
+def cancelTaskOf (d : DS) (k : Nat) : DS :=
+  -- is the task still inside `command.send`?  (exec waiter, created, caller neither awaiting nor answered)
+  let sending := match d.s.ws[k]? with
+    | some (w : Waiter) => decide (w.kind = Kind.exec) && !w.started && decide (w.out = Outcome.none)
+    | none => false
+  if sending then
+    if d.sendCancelled.contains k then d
+    else
+      let d := { d with sendCancelled := k :: d.sendCancelled }
+      if d.modes[k]? == some 4 then { d with rq := d.rq ++ [Item.abortT k] } else d
+  else prim d (.cancelTask k)
+
+/-- has the caller task of waiter `k` run its first step? (a `wait` / `exec` waiter is created by that step) -/
+def taskStarted (d : DS) (k : Nat) : Bool :=
+  match d.s.ws[k]? with
+  | some (w : Waiter) => if w.kind = Kind.raw then w.started else true
+  | none => false
+
+def setH (d : DS) (i : Nat) (hr : HRun) : DS := { d with hruns := d.hruns.set i hr }
+
+def popInbox (c : Nat) : List (Nat × Msg × List (List Act)) →
+    Option ((Msg × List (List Act)) × List (Nat × Msg × List (List Act)))
+  | [] => none
+  | (c', x) :: rest =>
+    if c' = c then some (x, rest)
+    else match popInbox c rest with
+      | none => none
+      | some (y, rest') => some (y, (c', x) :: rest')
+
+inductive Job
+  | handler (i : Nat)          -- go on with the listeners of call `i`
+  | readerLoop (c : Nat)       -- `_message_reader_loop` of connection `c` after a callback returned
+  | deliver (c : Nat) (μ : Msg) (progs : List (List Act)) (inline : Bool)   -- `_perform_message_callback`
+
+/-- runs a job until its task suspends (fuel = safety bound) -/
+def runJob : Nat → DS → Job → DS
+  | 0, d, _ => d
+  | f + 1, d, .deliver c μ progs inline =>
+    let i := d.s.hs.length
+    let d := prim d (.arrive c μ)
+    let d := { d with hruns := d.hruns ++ [{ conn := c, inline := inline, cur := [], rest := progs }] }
+    runJob f d (.handler i)
+  | f + 1, d, .readerLoop c =>
+    -- connection.py:311 `while not self._is_closing` … 316 `receive_message_object()`
+    if d.s.closing.contains c then d
+    else match popInbox c d.inbox with
+      | none => { d with parked := c :: d.parked }
+      | some ((μ, progs), rest) => runJob f { d with inbox := rest } (.deliver c μ progs false)
+  | f + 1, d, .handler i =>
+    match d.hruns[i]? with
+    | none => d
+    | some hr =>
+      match hr.cur with
+      | [] =>
+        match hr.rest with
+        | p :: ps => runJob f (setH d i { hr with cur := p, rest := ps }) (.handler i)
+        | [] =>
+          -- every listener has returned: the completion loop, then `_perform_message_callback` returns
+          let d := prim d (.finish i)
+          let d := setH d i { hr with returned := true }
+          if hr.inline then d else runJob f d (.readerLoop hr.conn)
+      | a :: as =>
+        let next := setH d i { hr with cur := as }
+        match a with
+        | .sleep 0 => runJob f next (.handler i)
+        | .sleep (k + 1) =>
+          let d := setH d i { hr with cur := .sleep k :: as }
+          { d with rq := d.rq ++ [.hcont i] }
+        | .gate g =>
+          if d.gatesOpen.contains g then runJob f next (.handler i)
+          else { next with gateWait := next.gateWait ++ [(g, i)] }
+        | .close c =>
+          -- `Connection.disconnect`: nothing when already CLOSING / CLOSED (connection.py:262)
+          let d := if next.s.closing.contains c then next else prim next (.connState c true)
+          runJob f d (.handler i)
+        | .raw tag m => runJob f (spawnRaw next tag m) (.handler i)
+        | .wait tag m => runJob f { next with rq := next.rq ++ [.startWait tag m] } (.handler i)
+        | .exec tag mode m => runJob f { next with rq := next.rq ++ [.startExec tag mode m] } (.handler i)
+        | .nwait tag m =>
+          let k := next.s.ws.length
+          let d := prim next (.create .wait m)
+          let d := armNow { d with tags := d.tags ++ [tag], modes := d.modes ++ [0] } k
+          let d := prim d (.awaitF k)
+          setH d i { hr with cur := as, nest := some k }
+        | .nexec tag m =>
+          let k := next.s.ws.length
+          let d := prim next (.create .exec m)
+          let d := armNow { d with tags := d.tags ++ [tag], modes := d.modes ++ [0] } k
+          let d := prim d (.awaitF k)
+          setH d i { hr with cur := as, nest := some k }
+        | .cancelFut tag =>
+          match idxOf next tag with
+          | some k => runJob f (prim next (.cancelFut k)) (.handler i)
+          | none => runJob f next (.handler i)
+        | .cancelTask tag =>
+          match idxOf next tag with
+          | some k => runJob f (if taskStarted next k then cancelTaskOf next k else next) (.handler i)
+          | none => runJob f next (.handler i)
+        | .raise => runJob f (setH d i { hr with cur := [] }) (.handler i)
+
+def FUEL : Nat := 100000
+
+/-- the call whose running listener awaits waiter `k` inline -/
+def nestOwner (d : DS) (k : Nat) : Option Nat :=
+  let rec go : List HRun → Nat → Option Nat
+    | [], _ => none
+    | hr :: hs, i => if hr.nest == some k then some i else go hs (i + 1)
+  go d.hruns 0
+
 def runItem (d : DS) : Item → DS
-  | .M => prim d .cb
+  | .M =>
+    match d.s.cbq.head? with
+    | some (.wake k) =>
+      let d := prim d .cb
+      match nestOwner d k, d.s.ws[k]? with
+      | some i, some (w : Waiter) =>
+        -- the reader task resumes inside the listener: `wait_for_*` / `execute` returns or raises, the program goes on
+        if decide (w.out = Outcome.none) then d
+        else match d.hruns[i]? with
+          | some hr => runJob FUEL (setH d i { hr with nest := none }) (.handler i)
+          | none => d
+      | _, _ => d
+    | _ => prim d .cb
   | .D => d
   | .startWait tag m =>
     let k := d.s.ws.length
     let d := prim d (.create .wait m)
-    prim { d with tags := d.tags ++ [tag], modes := d.modes ++ [0] } (.awaitF k)
+    let d := armNow { d with tags := d.tags ++ [tag], modes := d.modes ++ [0] } k
+    prim d (.awaitF k)
   | .startExec tag mode m =>
     let k := d.s.ws.length
     let d := prim d (.create .exec m)
-    let d := { d with tags := d.tags ++ [tag], modes := d.modes ++ [mode] }
+    let d := armNow { d with tags := d.tags ++ [tag], modes := d.modes ++ [mode] } k
     match mode with
     | 0 => prim d (.awaitF k)
     | 1 => prim d (.sendFails k false)
     | 2 => { d with rq := d.rq ++ [.awaitT k] }
     | 3 => { d with rq := d.rq ++ [.failT k] }
     | _ => d
-  | .awaitT k => if d.sendCancelled.contains k then prim d (.sendFails k true) else prim d (.awaitF k)
+  | .awaitT k =>
+    -- (a raw caller computes its timeout here, in its first step)
+    let d := if (d.arm.lookup k).isNone then armNow d k else d
+    if d.sendCancelled.contains k then prim d (.sendFails k true) else prim d (.awaitF k)
   | .failT k => prim d (.sendFails k (d.sendCancelled.contains k))
   | .abortT k => prim d (.sendFails k true)
+  | .reader c =>
+    -- woken inside `receive_message_object`: the message is taken; connection.py:330 skips it when closing
+    match popInbox c d.inbox with
+    | none => { d with parked := c :: d.parked }
+    | some ((μ, progs), rest) =>
+      let d := { d with inbox := rest }
+      if d.s.closing.contains c then d else runJob FUEL d (.deliver c μ progs false)
+  | .hcont i => runJob FUEL d (.handler i)
 
 /-- run `n` items from the head of the queue -/
 def runN : Nat → DS → DS
@@ -76,27 +267,28 @@ def runN : Nat → DS → DS
     | [] => d
     | it :: q => runN n (runItem { d with rq := q } it)
 
-/-- run items until the driving task's wake-up has been popped (fuel = safety bound) -/
-def runToD : Nat → DS → DS
-  | 0, d => d
+/-- run at most `n` items, stop after the driving task's wake-up; returns how many items are left of the `n` -/
+def runToD : Nat → DS → DS × Nat
+  | 0, d => (d, 0)
   | n + 1, d =>
     match d.rq with
-    | [] => d
-    | .D :: q => { d with rq := q }
+    | [] => (d, 0)
+    | .D :: q => ({ d with rq := q }, n)
     | it :: q => runToD n (runItem { d with rq := q } it)
 
-def idxOf (d : DS) (tag : Nat) : Option Nat :=
-  let rec go : List Nat → Nat → Option Nat
-    | [], _ => none
-    | t :: ts, i => if t = tag then some i else go ts (i + 1)
-  go d.tags 0
-
 def yieldD (d : DS) (fire : List Nat) : DS :=
-  let d := { d with rq := d.rq ++ [.D] }
-  let d := runN d.ymark d
-  let d := fire.foldl (fun d k => prim d (.timeout k)) d
-  let d := runToD (d.rq.length + 1000) d
-  { d with ymark := d.rq.length }
+  let r := d.clk                      -- the round whose batch the driving task has just run
+  let d := { d with rq := d.rq ++ [.D], clk := d.clk + 1 }
+  let d := runN d.left d              -- the rest of this loop iteration
+  -- timers that came due at the start of this iteration run last; a timeout is armed only when its caller
+  -- computed it while the deadline was still ahead (clock < round)
+  let d := fire.foldl (fun d k =>
+    match d.arm.lookup k with
+    | some a => if a < r then prim d (.timeout k) else d
+    | none => d) d
+  -- next iteration: everything that is queued now, up to the driving task
+  let (d, rest) := runToD d.rq.length d
+  { d with left := rest }
 
 /-! parsing -/
 
@@ -119,31 +311,103 @@ def parseExp (t : String) : Option Exp :=
   | 'p' :: 'e' :: 'q' :: cs => (num cs).map fun n => .pred fun v => v == .v n
   | _ => none
 
-def parsePairs {α} (p : String → Option α) : Nat → List String → Option (List (Nat × α))
-  | 0, [] => some []
+/-- `n` (field, value) pairs; returns the remaining tokens -/
+def parsePairs {α} (p : String → Option α) : Nat → List String → Option (List (Nat × α) × List String)
+  | 0, rest => some ([], rest)
   | n + 1, f :: e :: rest => do
     let f ← f.toNat?
     let e ← p e
-    let r ← parsePairs p n rest
-    pure ((f, e) :: r)
+    let (r, rest) ← parsePairs p n rest
+    pure ((f, e) :: r, rest)
   | _, _ => none
 
-def parseMatcher : List String → Option Matcher
+def parseMatcher : List String → Option (Matcher × List String)
   | c :: mc :: pr :: n :: rest => do
     let cls ← match c with | "s" => some ConnClass.server | "p" => some ConnClass.peer | _ => none
     let mc ← mc.toNat?
     let pr ← if pr = "-" then some none else pr.toNat?.map some
     let n ← n.toNat?
-    let fs ← parsePairs parseExp n rest
-    pure { cls := cls, msg := mc, peer := pr, fields := fs }
+    let (fs, rest) ← parsePairs parseExp n rest
+    pure ({ cls := cls, msg := mc, peer := pr, fields := fs }, rest)
   | _ => none
 
-def parseConn (t : String) : Option Conn :=
+/-- connection object identity and what the matcher sees of it -/
+def parseConn (t : String) : Option (Nat × Conn) :=
   match t.toList with
-  | ['s'] => some .server
-  | ['p', 'N'] => some (.peer none)
-  | 'p' :: cs => (num cs).map fun n => .peer (some n)
+  | ['s'] => some (0, .server)
+  | ['p', 'N'] => some (1, .peer none)
+  | 'p' :: cs => (num cs).bind fun n => if n < 2 then some (2 + n, .peer (some n)) else none
+  | 'q' :: cs => (num cs).bind fun n => if n < 2 then some (4 + n, .peer (some n)) else none
   | _ => none
+
+def parseAct : List String → Option (Act × List String)
+  | "sleep" :: k :: rest => k.toNat?.map fun k => (.sleep k, rest)
+  | "gate" :: g :: rest => g.toNat?.map fun g => (.gate g, rest)
+  | "close" :: c :: rest => (parseConn c).map fun c => (.close c.1, rest)
+  | "raw" :: tag :: rest => do
+    let tag ← tag.toNat?
+    let (m, rest) ← parseMatcher rest
+    pure (.raw tag m, rest)
+  | "wait" :: tag :: rest => do
+    let tag ← tag.toNat?
+    let (m, rest) ← parseMatcher rest
+    pure (.wait tag m, rest)
+  | "exec" :: tag :: mode :: rest => do
+    let tag ← tag.toNat?
+    let mode ← mode.toNat?
+    let (m, rest) ← parseMatcher rest
+    if mode < 2 then pure (.exec tag mode m, rest) else none
+  | "nwait" :: tag :: rest => do
+    let tag ← tag.toNat?
+    let (m, rest) ← parseMatcher rest
+    pure (.nwait tag m, rest)
+  | "nexec" :: tag :: rest => do
+    let tag ← tag.toNat?
+    let (m, rest) ← parseMatcher rest
+    pure (.nexec tag m, rest)
+  | "cancelfut" :: tag :: rest => tag.toNat?.map fun t => (.cancelFut t, rest)
+  | "canceltask" :: tag :: rest => tag.toNat?.map fun t => (.cancelTask t, rest)
+  | "raise" :: rest => some (.raise, rest)
+  | _ => none
+
+def parseActs : Nat → List String → Option (List Act × List String)
+  | 0, rest => some ([], rest)
+  | n + 1, toks => do
+    let (a, rest) ← parseAct toks
+    let (as, rest) ← parseActs n rest
+    pure (a :: as, rest)
+
+def parseProgs : Nat → List String → Option (List (List Act) × List String)
+  | 0, rest => some ([], rest)
+  | n + 1, k :: toks => do
+    let k ← k.toNat?
+    let (p, rest) ← parseActs k toks
+    let (ps, rest) ← parseProgs n rest
+    pure (p :: ps, rest)
+  | _, _ => none
+
+/-- `<conn> <cls> <n> pairs [<L> progs]` -/
+def parseMsg : List String → Option (Nat × Msg × List (List Act))
+  | c :: mc :: n :: rest => do
+    let (cid, conn) ← parseConn c
+    let mc ← mc.toNat?
+    let n ← n.toNat?
+    let (attrs, rest) ← parsePairs parseVal n rest
+    let μ : Msg := { conn := conn, cls := mc, attrs := attrs }
+    match rest with
+    | [] => pure (cid, μ, [])
+    | l :: rest => do
+      let l ← l.toNat?
+      let (progs, rest) ← parseProgs l rest
+      if rest.isEmpty then pure (cid, μ, progs) else none
+  | _ => none
+
+def suspends : Act → Bool
+  | .sleep k => k != 0
+  | .gate _ => true
+  | .nwait _ _ => true
+  | .nexec _ _ => true
+  | _ => false
 
 def showF : FStatus → String
   | .pending => "P"
@@ -163,62 +427,73 @@ def insertSorted (x : Nat × String) : List (Nat × String) → List (Nat × Str
   | [] => [x]
   | y :: ys => if x.1 ≤ y.1 then x :: y :: ys else y :: insertSorted x ys
 
+def connName : Nat → String
+  | 0 => "s"
+  | 1 => "pN"
+  | 2 => "p0"
+  | 3 => "p1"
+  | 4 => "q0"
+  | _ => "q1"
+
 def snapshot (d : DS) : String :=
   let tw := d.tags.zip d.s.ws
   let order := (tw.filter (·.2.listed)).map (toString ·.1)
   let ents := (tw.map fun (t, w) => (t, s!"{t}:{showF w.fut}:{showO w.out}")).foldl (fun acc x => insertSorted x acc) []
-  s!"n={d.s.nmsg} e={d.s.err} order={",".intercalate order} | {" ".intercalate (ents.map (·.2))}"
+  let closing := ([0, 1, 2, 3, 4, 5].filter d.s.closing.contains).map connName
+  let calls := d.s.hs.map fun hd => if hd.done then "d" else "r"
+  s!"n={d.s.nmsg} e={d.s.err} order={",".intercalate order} c={",".intercalate closing} h={"".intercalate calls} | {" ".intercalate (ents.map (·.2))}"
 
 def handle (d : DS) (line : String) : DS × String :=
   match (line.splitOn " ").filter (· ≠ "") with
   | ["reset"] => ({}, "ok")
   | "raw" :: tag :: rest =>
     match tag.toNat?, parseMatcher rest with
-    | some tag, some m =>
-      let k := d.s.ws.length
-      let d := prim d (.create .raw m)
-      let d := { d with tags := d.tags ++ [tag], modes := d.modes ++ [0], rq := d.rq ++ [.awaitT k] }
-      (d, snapshot d)
+    | some tag, some (m, []) => let d := spawnRaw d tag m; (d, snapshot d)
     | _, _ => (d, "bad-op")
   | "wait" :: tag :: rest =>
     match tag.toNat?, parseMatcher rest with
-    | some tag, some m => let d := { d with rq := d.rq ++ [.startWait tag m] }; (d, snapshot d)
+    | some tag, some (m, []) => let d := { d with rq := d.rq ++ [.startWait tag m] }; (d, snapshot d)
     | _, _ => (d, "bad-op")
   | "exec" :: tag :: mode :: rest =>
     match tag.toNat?, mode.toNat?, parseMatcher rest with
-    | some tag, some mode, some m =>
+    | some tag, some mode, some (m, []) =>
       if mode < 5 then let d := { d with rq := d.rq ++ [.startExec tag mode m] }; (d, snapshot d) else (d, "bad-op")
     | _, _, _ => (d, "bad-op")
-  | "msg" :: c :: mc :: n :: rest =>
-    match parseConn c, mc.toNat?, n.toNat? with
-    | some c, some mc, some n =>
-      match parsePairs parseVal n rest with
-      | some attrs => let d := prim d (.message { conn := c, cls := mc, attrs := attrs }); (d, snapshot d)
-      | none => (d, "bad-op")
-    | _, _, _ => (d, "bad-op")
+  | "msg" :: rest =>
+    match parseMsg rest with
+    | some (c, μ, progs) =>
+      if progs.any (·.any suspends) then (d, "bad-op")
+      else if d.s.closing.contains c then (d, snapshot d)
+      else let d := runJob FUEL d (.deliver c μ progs true); (d, snapshot d)
+    | none => (d, "bad-op")
+  | "feed" :: rest =>
+    match parseMsg rest with
+    | some (c, μ, progs) =>
+      let d := { d with inbox := d.inbox ++ [(c, μ, progs)] }
+      let d := if d.parked.contains c then { d with parked := d.parked.erase c, rq := d.rq ++ [.reader c] } else d
+      (d, snapshot d)
+    | none => (d, "bad-op")
+  | ["open", g] =>
+    match g.toNat? with
+    | some g =>
+      if d.gatesOpen.contains g then (d, snapshot d)
+      else
+        let woken := (d.gateWait.filter (·.1 == g)).map fun x => Item.hcont x.2
+        let d := { d with gatesOpen := g :: d.gatesOpen, gateWait := d.gateWait.filter (·.1 != g), rq := d.rq ++ woken }
+        (d, snapshot d)
+    | none => (d, "bad-op")
   | ["cancelfut", tag] =>
     match tag.toNat?.bind (idxOf d) with
     | some k => let d := prim d (.cancelFut k); (d, snapshot d)
     | none => (d, "bad-op")
   | ["canceltask", tag] =>
     match tag.toNat?.bind (idxOf d) with
-    | some k =>
-      -- is the task still inside `command.send`?  (exec waiter, created, caller neither awaiting nor answered)
-      let sending := match d.s.ws[k]? with
-        | some (w : Waiter) => decide (w.kind = Kind.exec) && !w.started && decide (w.out = Outcome.none)
-        | none => false
-      if sending then
-        if d.sendCancelled.contains k then (d, snapshot d)
-        else
-          let d := { d with sendCancelled := k :: d.sendCancelled }
-          let d := if d.modes[k]? == some 4 then { d with rq := d.rq ++ [Item.abortT k] } else d
-          (d, snapshot d)
-      else
-        let d := prim d (.cancelTask k); (d, snapshot d)
+    | some k => let d := cancelTaskOf d k; (d, snapshot d)
     | none => (d, "bad-op")
   | "yield" :: tags =>
-    match tags.mapM (fun t => t.toNat?.bind (idxOf d)) with
-    | some ks => let d := yieldD d ks; (d, snapshot d)
+    -- a tag whose request does not exist (yet) has no timer
+    match tags.mapM (fun t => t.toNat?) with
+    | some ts => let d := yieldD d (ts.filterMap (idxOf d)); (d, snapshot d)
     | none => (d, "bad-op")
   | _ => (d, "bad-op")
 
